@@ -21,6 +21,9 @@ def family(ctx):
     out += ["cfg c=1 | T0: spawn 1; cwr 0 1; join 1 | T1: crd 0",
             "cfg m=2 | T0: spawn 1; lock 0; lock 1; unlock 1; unlock 0; join 1 | T1: lock 1; lock 0; unlock 0; unlock 1",
             "cfg x=1 c=1 | T0: spawn 1; cwr 0 5; st 0 1 rlx; join 1 | T1: ld 0 acq; ifeq 1 v:1 1; crd 0"]
+    # the failure is the branch limit, reached in the third iteration only (a resumed run must be held to the same limit)
+    out += [f"cfg maxbr={m} x=1 | T0: spawn 1; ld 0 rlx; ifeq 1 v:1 3; ld 0 rlx; ld 0 rlx; ld 0 rlx; join 1 | T1: st 0 1 rlx"
+            for m in (9, 10, 11, 12, 13)]
     out += TLS
     return list(dict.fromkeys(out))
 
